@@ -492,9 +492,12 @@ type c13Op struct {
 	Via   string `json:"via,omitempty"` // http | parser | ctx | txn
 	Ents  []c13E `json:"ents,omitempty"`
 	Point string `json:"point,omitempty"`
+	// pubds: a dataset is created with these publicNamespaces (its own, filtered context)
+	Public []string `json:"public,omitempty"`
 }
 
 type c13M struct {
+	pub     []string // datasets created with publicNamespaces
 	f       fataler
 	dir     string
 	h       *WHub
@@ -716,6 +719,12 @@ func (g *c13M) apply(op c13Op) {
 		g.cls["restart"] = true
 	case "crash":
 		g.crash(op)
+	case "pubds":
+		if _, err := g.h.Dsm.CreateDataset(op.DS, &server.CreateDatasetConfig{PublicNamespaces: op.Public}); err != nil {
+			g.fail("VERIF-INFRA create dataset with publicNamespaces: %v", err)
+		}
+		g.pub = append(g.pub, op.DS)
+		g.cls["dataset-with-public-namespaces"] = true
 	}
 	g.check()
 }
@@ -832,6 +841,24 @@ func (g *c13M) check() {
 			}
 		}
 	}
+	// a dataset that declares publicNamespaces serves a context of its own. Whatever it lists - declared entries
+	// the hub knows, does not know, or knows in another spelling - a prefix in it means what it means everywhere
+	// (a declared namespace without a prefix is listed under the empty prefix, which is not a prefix)
+	for _, ds := range g.pub {
+		ctx, _, err := c13List(g.h, ds)
+		if err != nil {
+			g.fail("%v", err)
+		}
+		named := map[string]string{}
+		for p, e := range ctx {
+			if p != "" {
+				named[p] = e
+			}
+		}
+		if s := c13Consistent(named, m); s != "" {
+			g.fail("CONTEXT of GET /datasets/%s/entities (publicNamespaces): %s", ds, s)
+		}
+	}
 	for _, u := range kit.SortedKeys(g.ids) {
 		ctx, e, found, err := c13Query(g.h, u, false)
 		g.queries++
@@ -926,6 +953,30 @@ func TestVerif_C13_bijection(t *testing.T) {
 					op.K = "post"
 					g.apply(op)
 				}
+			},
+			"pubds": func(t *rapid.T) {
+				if len(g.pub) >= 3 || rapid.IntRange(0, 3).Draw(t, "do") != 0 {
+					t.Skip("dataset with publicNamespaces thinned out")
+				}
+				op := c13Op{K: "pubds", DS: fmt.Sprintf("pub%d", len(g.pub))}
+				known := kit.SortedKeys(g.ns)
+				for i := rapid.IntRange(1, 3).Draw(t, "nPublic"); i > 0; i-- {
+					kind := rapid.IntRange(0, 2).Draw(t, "publicKind")
+					if len(known) == 0 {
+						kind = 2
+					}
+					switch kind {
+					case 0: // a namespace the hub knows, as the hub spells it
+						op.Public = append(op.Public, g.ns[rapid.SampledFrom(known).Draw(t, "publicKnown")])
+					case 1: // the same, written without its last character (the separator)
+						e := g.ns[rapid.SampledFrom(known).Draw(t, "publicKnown")]
+						op.Public = append(op.Public, e[:len(e)-1])
+					default: // one the hub has never seen
+						fresh++
+						op.Public = append(op.Public, fmt.Sprintf("http://ex.org/declared/%d/", fresh))
+					}
+				}
+				g.apply(op)
 			},
 			"crash": func(t *rapid.T) {
 				if rapid.IntRange(0, 3).Draw(t, "do") != 0 {
